@@ -469,6 +469,8 @@ fn sweeps(tier: Tier) -> Vec<Sweep> {
         // names DEFAULT only)
         if l.starts_with("0x") {
             cases.push(format!("DEFAULT 0 1 0\nSPACE 0 1 0\nAL 1 1 2\nKJ 0 0 2\nA 1 0 1\nB 0 1 1\n0x40..0x44 A B\n{l}\n").into_bytes());
+            // ... and after a HIGHER range line of the same category (descending line order)
+            cases.push(format!("DEFAULT 0 1 0\nSPACE 0 1 0\nAL 1 1 2\nKJ 0 0 2\nA 1 0 1\nB 0 1 1\n0x50..0x52 A\n{l}\n0x60 A\n").into_bytes());
         }
     }
     out.push(Sweep {
